@@ -17,6 +17,7 @@ import (
 	"time"
 
 	"cosmossdk.io/math"
+	storetypes "cosmossdk.io/store/types"
 	"github.com/cosmos/cosmos-sdk/codec"
 	sdk "github.com/cosmos/cosmos-sdk/types"
 	banktypes "github.com/cosmos/cosmos-sdk/x/bank/types"
@@ -30,10 +31,18 @@ import (
 
 const nAcc = 3
 
-var subNames = map[int]string{0: env.BondDenom, 1: "sa", 2: "sb", 3: "sc"}
+// subClasses are the literal sub-denomination strings a model slot can be bound to (TokenFactoryGen.Bindings):
+// hostile but valid (sdk.ValidateDenom allows '/', '.', an empty tail). Class 0 is the string of the native denom
+// (rejected by the module because a denom of that name has supply) and is not a slot.
+var subClasses = map[int]string{0: env.BondDenom,
+	1: "sa", 2: "sb", 3: "sa/x",
+	4: "../x", 5: "../../" + env.BondDenom, 6: "a/../../../ibc/ABC",
+	7: "./sa", 8: "sa//x", 9: "sa/", 10: ""}
 
-// special (non-factory) denominations <<0, k>>
-var specials = map[int]string{1: env.BondDenom, 2: "factory/x", 3: "factory//x", 4: "factory/notanaddress/x"}
+// fixed special (non-factory) denominations <<0, k>>; <<0, nFixed+c>> is "factory/<address of account c>"
+var specials = map[int]string{1: env.BondDenom, 2: "factory/x", 3: "factory//x", 4: "factory/notanaddress/x", 5: "ibc/ABC"}
+
+const nFixed = 5
 
 type args struct {
 	Who int `json:"who"`
@@ -46,6 +55,8 @@ type args struct {
 
 type genesisArgs struct {
 	Funds []int `json:"funds"`
+	Subs  []int `json:"subs"`  // class of every sub-denom slot (default plain: 1, 2)
+	NMeta *int  `json:"nmeta"` // 1: the native denom has bank metadata in genesis (default), 0: it has none
 }
 
 type dkey struct{ c, s int }
@@ -56,7 +67,7 @@ type world struct {
 	tracked  []dkey          // order of obs.den
 	name     map[dkey]string // tracked denom strings
 	byName   map[string]dkey
-	nSubs    int
+	subs     []int              // class bound to slot s (index s-1)
 	supply0  math.Int           // native supply after genesis
 	nativeMD banktypes.Metadata // native metadata as genesis wrote it
 }
@@ -76,7 +87,7 @@ func envFunds() []int {
 	return fs
 }
 
-func newWorld(funds []int, nSubs int) *world {
+func newWorld(funds []int, subs []int, nmeta int) *world {
 	params := tftypes.DefaultParams() // production default: the creation fee is charged (10 GRAIN)
 	if len(params.DenomCreationFee) != 1 {
 		panic("unexpected default creation fee")
@@ -99,31 +110,55 @@ func newWorld(funds []int, nSubs int) *world {
 			gs[minttypes.ModuleName] = cdc.MustMarshalJSON(&mg)
 			// the native denom carries bank metadata (what Paloma's BankModule default genesis defines, as on the
 			// live chain), so that messages naming it get past the module's "has bank metadata" test
+			// (nmeta = 0 leaves the genesis as `app.DefaultGenesis` makes it: no metadata for the native denom)
 			var want, bg banktypes.GenesisState
 			cdc.MustUnmarshalJSON(app.BankModule{}.DefaultGenesis(cdc), &want)
 			cdc.MustUnmarshalJSON(gs[banktypes.ModuleName], &bg)
-			if len(bg.DenomMetadata) == 0 {
+			if nmeta == 1 && len(bg.DenomMetadata) == 0 {
 				bg.DenomMetadata = want.DenomMetadata
+			}
+			if nmeta == 0 {
+				bg.DenomMetadata = nil
 			}
 			gs[banktypes.ModuleName] = cdc.MustMarshalJSON(&bg)
 		}})
-	w := &world{e: e, fee: fee, name: map[dkey]string{}, byName: map[string]dkey{}, nSubs: nSubs}
+	w := &world{e: e, fee: fee, name: map[dkey]string{}, byName: map[string]dkey{}, subs: subs}
+	// a factory denom is tracked under its LITERAL name factory/<creator>/<sub-denom as given>
 	for c := 1; c <= nAcc; c++ {
-		for s := 1; s <= nSubs; s++ {
+		for s := 1; s <= len(subs); s++ {
 			k := dkey{c, s}
 			w.tracked = append(w.tracked, k)
-			w.name[k] = "factory/" + e.User(c-1).Bech32() + "/" + subNames[s]
+			w.name[k] = "factory/" + e.User(c-1).Bech32() + "/" + subClasses[subs[s-1]]
 		}
 	}
-	for s := 1; s <= len(specials); s++ {
+	for s := 1; s <= nFixed; s++ {
 		k := dkey{0, s}
 		w.tracked = append(w.tracked, k)
 		w.name[k] = specials[s]
 	}
+	for c := 1; c <= nAcc; c++ {
+		k := dkey{0, nFixed + c}
+		w.tracked = append(w.tracked, k)
+		w.name[k] = "factory/" + e.User(c-1).Bech32()
+	}
 	for k, n := range w.name {
+		if _, dup := w.byName[n]; dup {
+			panic("tracked denom names collide: " + n)
+		}
 		w.byName[n] = k
 	}
 	return w
+}
+
+// subString is the literal sub-denom string of slot s (0 = the native denom's name).
+func (w *world) subString(s int) string {
+	if s >= 1 && s <= len(w.subs) {
+		return subClasses[w.subs[s-1]]
+	}
+	if s == 0 {
+		return subClasses[0]
+	}
+	return fmt.Sprintf("nosuchslot%d", s)
 }
 
 // denomOf gives the string for an argument pair, also for pairs that are not tracked.
@@ -132,7 +167,7 @@ func (w *world) denomOf(c, s int) string {
 		return n
 	}
 	if c >= 1 && c <= nAcc {
-		return "factory/" + w.e.User(c-1).Bech32() + "/" + subNames[s]
+		return "factory/" + w.e.User(c-1).Bech32() + "/" + w.subString(s)
 	}
 	return fmt.Sprintf("factory/unknown%d/x%d", c, s)
 }
@@ -243,14 +278,55 @@ func (w *world) observe() map[string]any {
 		n++
 	}
 	it.Close()
-	return map[string]any{"den": den, "funds": funds, "nden": n}
+	return map[string]any{"den": den, "funds": funds, "nden": n, "x": w.foreign(ctx)}
+}
+
+// foreign counts, per store, the denominations that are NOT one of the tracked literal names:
+// [tokenfactory creator index, tokenfactory authority records, bank metadata, bank supply].
+func (w *world) foreign(ctx sdk.Context) []int {
+	x := make([]int, 4)
+	tfk := w.e.App.TokenFactoryKeeper
+	it := tfk.GetAllDenomsIterator(ctx)
+	for ; it.Valid(); it.Next() {
+		if _, ok := w.byName[string(it.Value())]; !ok {
+			x[0]++
+		}
+	}
+	it.Close()
+	pre := []byte(tftypes.DenomsPrefixKey + tftypes.KeySeparator)
+	suf := tftypes.KeySeparator + tftypes.DenomAuthorityMetadataKey
+	it2 := storetypes.KVStorePrefixIterator(ctx.KVStore(w.e.App.GetKey(tftypes.StoreKey)), pre)
+	for ; it2.Valid(); it2.Next() {
+		k := strings.TrimPrefix(string(it2.Key()), string(pre))
+		if !strings.HasSuffix(k, suf) {
+			x[1]++ // a record of unknown shape
+			continue
+		}
+		if _, ok := w.byName[strings.TrimSuffix(k, suf)]; !ok {
+			x[1]++
+		}
+	}
+	it2.Close()
+	w.e.App.BankKeeper.IterateAllDenomMetaData(ctx, func(md banktypes.Metadata) bool {
+		if _, ok := w.byName[md.Base]; !ok {
+			x[2]++
+		}
+		return false
+	})
+	w.e.App.BankKeeper.IterateTotalSupply(ctx, func(c sdk.Coin) bool {
+		if _, ok := w.byName[c.Denom]; !ok {
+			x[3]++
+		}
+		return false
+	})
+	return x
 }
 
 func (w *world) msgFor(act string, a args) sdk.Msg {
 	md := valsettypes.MsgMetadata{Creator: w.addrOf(a.As), Signers: []string{w.addrOf(a.Who)}}
 	switch act {
 	case "Create":
-		return &tftypes.MsgCreateDenom{Subdenom: subNames[a.S], Metadata: md}
+		return &tftypes.MsgCreateDenom{Subdenom: w.subString(a.S), Metadata: md}
 	case "Mint":
 		return &tftypes.MsgMint{Amount: sdk.Coin{Denom: w.denomOf(a.C, a.S), Amount: math.NewInt(int64(a.Amt))}, Metadata: md}
 	case "Burn":
@@ -277,20 +353,17 @@ func TestDriveTokenFactory(t *testing.T) {
 		t.Fatal(err)
 	}
 	defer em.Close()
-	nSubs := 2
-	if v := os.Getenv("VERIF_TF_SUBS"); v != "" {
-		nSubs, _ = strconv.Atoi(v)
-	}
 	t0 := time.Now()
 	for _, h := range hs {
-		runHistory(t, em, h, nSubs)
+		runHistory(t, em, h)
 	}
 	t.Logf("%d histories in %v", len(hs), time.Since(t0))
 }
 
-func runHistory(t *testing.T, em *drv.Emitter, h drv.History, nSubs int) {
+func runHistory(t *testing.T, em *drv.Emitter, h drv.History) {
 	steps := h.Steps
 	funds := envFunds()
+	subs, nmeta := []int{1, 2}, 1
 	// "Genesis" is what the generator emits; "Init" is how the recorded trace (and a replay file) names the same step
 	if len(steps) > 0 && (steps[0].Act == "Genesis" || steps[0].Act == "Init") {
 		var g genesisArgs
@@ -298,12 +371,23 @@ func runHistory(t *testing.T, em *drv.Emitter, h drv.History, nSubs int) {
 			t.Fatal(err)
 		}
 		funds = g.Funds
+		if len(g.Subs) > 0 {
+			subs = g.Subs
+		}
+		if g.NMeta != nil {
+			nmeta = *g.NMeta
+		}
 		steps = steps[1:]
 	}
 	if len(funds) != nAcc {
 		t.Fatalf("history %d: need %d funds entries", h.H, nAcc)
 	}
-	w := newWorld(funds, nSubs)
+	for _, k := range subs {
+		if _, ok := subClasses[k]; !ok || k == 0 {
+			t.Fatalf("history %d: unknown sub-denom class %d", h.H, k)
+		}
+	}
+	w := newWorld(funds, subs, nmeta)
 	defer w.e.Close()
 	e := w.e
 	// one empty block so that everything genesis does in its first begin/end blockers is behind us
@@ -312,7 +396,7 @@ func runHistory(t *testing.T, em *drv.Emitter, h drv.History, nSubs int) {
 	}
 	w.supply0 = e.Supply(env.BondDenom)
 	w.nativeMD, _ = e.App.BankKeeper.GetDenomMetaData(e.Ctx(), env.BondDenom)
-	em.Emit(map[string]any{"h": h.H, "i": 0, "act": "Init", "args": genesisArgs{Funds: funds}, "obs": w.observe(),
+	em.Emit(map[string]any{"h": h.H, "i": 0, "act": "Init", "args": genesisArgs{Funds: funds, Subs: subs, NMeta: &nmeta}, "obs": w.observe(),
 		"fee": small(w.fee.Amount), "feedenom": w.fee.Denom})
 	for i, st := range steps {
 		var a args
@@ -330,7 +414,7 @@ func runHistory(t *testing.T, em *drv.Emitter, h drv.History, nSubs int) {
 			// a block-level failure (panic in a blocker, consensus failure): recorded, the history ends here
 			ev["res"], ev["cs"], ev["code"] = "blockfail", "block", -1
 			ev["log"] = firstLine(err.Error())
-			ev["obs"] = map[string]any{"den": []any{}, "funds": []int{}, "nden": -1}
+			ev["obs"] = map[string]any{"den": []any{}, "funds": []int{}, "nden": -1, "x": []int{}}
 			em.Emit(ev)
 			return
 		}
